@@ -18,7 +18,7 @@ AllMetrics == {<<a, b, c, d, e, f>> : a \in Diag, b \in Diag, c \in Diag, d \in 
 (* the property's quantifier: positive definite and bounded away from degenerate,
    1 - ca^2 - cb^2 - cg^2 + 2 ca cb cg >= 0.02  <=>  50 det G >= g11 g22 g33 *)
 Valid(m) == IsPosDef(Sym(m)) /\ 50 * Det(Sym(m)) >= m[1] * m[2] * m[3]
-Lattice == IF Metrics # {} THEN Metrics ELSE {m \in AllMetrics : Valid(m)}
+Lattice == Metrics \cup {m \in AllMetrics : Valid(m)}        \* explicit metrics (generated) plus the box (empty when Diag = {})
 
 VARIABLES G, rep, path
 vars == <<G, rep, path>>
